@@ -146,6 +146,13 @@ def handle : DrvHandler := fun op args =>
       let env ← envOf? env; let lim ← limitsOf? lim; let now ← jInt? now
       let script ← scriptOf? script
       some (ok (.arr ((loopRun env lim now (fromScratch now) script).map attJ).toArray))
+  | "C11.timer", [env, lim, interval, sharp, now, script] => do
+      -- the whole life of a timer (interval > 0, no idle) from scratch at `now`
+      let env ← envOf? env; let lim ← limitsOf? lim; let now ← jInt? now
+      let interval ← jNat? interval; let sharp ← jBool? sharp
+      let script ← scriptOf? script
+      if interval == 0 then some (err "zero-interval") else
+      some (ok (.arr ((timerRun env lim interval sharp now (fromScratch now) script).map attJ).toArray))
   | "C11.roundtrip", [r, now] => do
       let r ← recOf? r; let now ← jInt? now
       some (ok (recJ (fromStorage (toStorage r) now)))
